@@ -3,7 +3,7 @@ import sys, os, argparse, importlib, traceback
 from .common import MachineryError, repo_on_path
 
 
-ENV_FLAGS = ["-O", "-bb", "-W", "error::DeprecationWarning"]
+ENV_FLAGS = ["-O", "-W", "error::DeprecationWarning"]
 PURE_TEXT = ("C12", "C10", "C15")
 
 
